@@ -194,6 +194,9 @@ func runCase(c vcase) (r vres) {
 			p, _ := rd.Seek(0, io.SeekCurrent)
 			r.Pos = int(p)
 		}
+	case "name_string":
+		r.Ok = true
+		r.Out = hex.EncodeToString([]byte(Name(unhexAll(c.Labels)).String()))
 	case "trim":
 		pre, ok := Name(unhexAll(c.Labels)).TrimSuffix(Name(unhexAll(c.Suffix)))
 		r.Ok = ok
